@@ -329,6 +329,13 @@ Section Eval.
               Def (ONormal, {| objs := objs st1; trace := ELog lv avs :: trace st1 |}, e)
           | None => Stuck "console"
           end
+        (* the slot that IS the property setter of `next`, called as a statement: exactly the effect of the assignment o.next = r *)
+        else if String.eqb f "setNext" then
+          match args with
+          | [r] => let? (ov, st1) := eval st e o in let? (v, st2) := eval st1 e r in
+                   match ov with VP (Some i) => let? st3 := write_prop st2 i "next" v in Def (ONormal, st3, e) | VP None => Undef | _ => Stuck "call on a non-object" end
+          | _ => Stuck "setNext"
+          end
         else let? (_, st1) := eval st e (ECall (EMember o f) args) in Def (ONormal, st1, e)
     | SExpr x => let? (_, st1) := eval st e x in Def (ONormal, st1, e)
     | SBlock ss =>
